@@ -101,7 +101,8 @@ def datetime_from_uuid1(uuid_arg):
 
     :param uuid_arg: a version 1 :class:`~uuid.UUID`
     """
-    return datetime_from_timestamp(unix_time_from_uuid1(uuid_arg))
+    # integer arithmetic: float seconds lose the microsecond far from the epoch
+    return DATETIME_EPOC + datetime.timedelta(microseconds=(uuid_arg.time - 0x01B21DD213814000) // 10)
 
 
 def min_uuid_from_time(timestamp):
@@ -147,7 +148,7 @@ def uuid_from_time(time_arg, node=None, clock_seq=None):
     """
     if hasattr(time_arg, 'utctimetuple'):
         seconds = int(calendar.timegm(time_arg.utctimetuple()))
-        microseconds = (seconds * 1e6) + time_arg.time().microsecond
+        microseconds = (seconds * 1000000) + time_arg.time().microsecond
     else:
         microseconds = int(time_arg * 1e6)
 
